@@ -281,4 +281,36 @@ theorem C02_serial {n : Nat} {s : Sys} (h : Reach false true n s) (e : HistEntry
       · exact h3
   · simp [hk]
 
+/-! ## Non-vacuity: concrete reachable histories -/
+
+/-- Two update transactions start at read timestamp 0; 0 reads fingerprint 7 and writes 8, 1 writes
+    7 and commits (ts 1); then `Commit` of 0 is rejected (it read 7, written at 1 > 0). -/
+def exConflict : List Label :=
+  [.begin true, .waitCheck 0, .begin true, .waitCheck 1, .read 0 7, .write 0 8, .write 1 7,
+   .commit 1, .procReadMark, .procReadMark]
+
+example : ((Sys.opened false true 0).runLabels exConflict).isSome = true := by decide
+example : (((Sys.opened false true 0).runLabels exConflict).bind (·.commitResult 0)) = some .conflict := by
+  decide
+/-- The same schedule where transaction 0 read another key: accepted at timestamp 2, and the
+    premises of `C02_sound`/`C02_serial` are met by a non-empty history. -/
+def exOk : List Label :=
+  [.begin true, .waitCheck 0, .begin true, .waitCheck 1, .read 0 9, .write 0 8, .write 1 7,
+   .commit 1, .procReadMark, .procReadMark, .cleanup]
+
+example : (((Sys.opened false true 0).runLabels exOk).bind (·.commitResult 0)) = some (.ok 2) := by decide
+example : (((Sys.opened false true 0).runLabels (exOk ++ [.commit 0])).map (fun s => s.hist.map (·.ts))) =
+    some [1, 2] := by decide
+/-- A long-running reader (transaction 0, read timestamp 0) keeps the entry of commit 1 alive
+    across cleanups: `committedTxns` still holds it after `cleanup`, although transaction 1 is done. -/
+example : (((Sys.opened false true 0).runLabels exOk).map (fun s => (s.o.committedTxns.map (·.ts), s.o.lastCleanupTs))) =
+    some ([1], 0) := by decide
+/-- Once the reader is gone, commit 1 is applied, a later reader (read timestamp 1) has come and
+    gone and the read mark has caught up, the entry is pruned. -/
+example : (((Sys.opened false true 0).runLabels
+      (exOk ++ [.discard 0, .doneCommit 1, .procTxnMark, .procTxnMark, .procTxnMark, .begin false,
+        .waitCheck 2, .discard 2, .procReadMark, .procReadMark, .procReadMark, .procReadMark,
+        .procReadMark, .cleanup])).map
+        (fun s => (s.o.committedTxns.map (·.ts), s.o.lastCleanupTs))) = some ([], 1) := by decide
+
 end Badger
